@@ -39,7 +39,7 @@ def generate(rng, tier):
     scn = obs.gen_observation(rng, tier)
     if scn["mode"]["obs_mode"] == "product" and rng.random() < 0.2:
         # the readout time itself is one of the swept parameters (one readout per run)
-        scn["readout"] = {"times": [1.0], "start_time": 0.0, "non_destructive": scn["readout"]["non_destructive"]}
+        scn["readout"] = {"times": [1.0], "start_time": rng.choice([0.0, 0.5, -1.0]), "non_destructive": scn["readout"]["non_destructive"]}
         scn["mode"]["parameters"] = [p for p in scn["mode"]["parameters"] if p.get("enabled", True)][:1]
         scn["mode"]["parameters"].append({"key": "observation.readout.times", "values": rng.sample([2.0, 4.0, 7.5, 11.0], rng.randint(2, 3)), "enabled": True})
     return scn
